@@ -1,55 +1,7 @@
 ------------------------------ MODULE XlArray ------------------------------
-(* C05 - array evaluation: the scalar rule lifted element-wise under Excel's *)
-(* broadcasting, and the fitting of a result into a destination range.      *)
-EXTENDS XlOpsDef
-
-NA == Err("NA")
-
-Rows(v) == IF v.k = "a" THEN Len(v.rows) ELSE 1
-Cols(v) == IF v.k = "a" THEN Len(v.rows[1]) ELSE 1
-
-\* element (i, j) of v seen as part of an R x C result: a scalar, a single row
-\* or a single column stretches; positions it does not cover are #N/A
-Elem(v, i, j) ==
-  IF v.k # "a" THEN v
-  ELSE LET m == Rows(v)  n == Cols(v)
-           ii == IF m = 1 THEN 1 ELSE i
-           jj == IF n = 1 THEN 1 ELSE j
-       IN IF ii <= m /\ jj <= n THEN v.rows[ii][jj] ELSE NA
-
-Matrix(R, C, f(_, _)) == Arr([i \in 1..R |-> [j \in 1..C |-> f(i, j)]])
-
-\* a 1x1 result is the scalar itself
-Unwrap(v) == IF v.k = "a" /\ Rows(v) = 1 /\ Cols(v) = 1 THEN v.rows[1][1] ELSE v
-
-Lift1(opn, a) ==
-  IF a.k # "a" THEN Un(opn, a)
-  ELSE LET f(i, j) == Un(opn, a.rows[i][j]) IN Matrix(Rows(a), Cols(a), f)
-
-Lift2(opn, a, b) ==
-  IF a.k # "a" /\ b.k # "a" THEN Bin(opn, a, b)
-  ELSE LET R == Max2(Rows(a), Rows(b))
-           C == Max2(Cols(a), Cols(b))
-           f(i, j) == Bin(opn, Elem(a, i, j), Elem(b, i, j))
-       IN Matrix(R, C, f)
-
-\* an n-ary element-wise function given as a left fold of a binary scalar rule
-RECURSIVE FoldArgs(_, _, _, _, _)
-FoldArgs(opn, init, args, i, j) ==
-  IF args = <<>> THEN init
-  ELSE Bin(opn, FoldArgs(opn, init, SubSeq(args, 1, Len(args) - 1), i, j),
-                Elem(args[Len(args)], i, j))
-RECURSIVE MaxOf(_)
-MaxOf(s) == IF Len(s) = 1 THEN s[1] ELSE Max2(s[1], MaxOf(Tail(s)))
-LiftN(opn, init, args) ==
-  LET R == MaxOf([k \in 1..Len(args) |-> Rows(args[k])])
-      C == MaxOf([k \in 1..Len(args) |-> Cols(args[k])])
-      f(i, j) == FoldArgs(opn, init, args, i, j)
-  IN IF \A k \in 1..Len(args) : args[k].k # "a" THEN f(1, 1) ELSE Matrix(R, C, f)
-
-\* storing v into an r x c range
-Fit(v, r, c) ==
-  LET f(i, j) == Elem(v, i, j) IN Matrix(r, c, f)
+(* C05 - the one-step machine over XlArrayDef: a case is an operator with    *)
+(* array operands, a fit, or an n-ary call; the step applies it.             *)
+EXTENDS XlArrayDef
 
 -----------------------------------------------------------------------------
 \* pools
